@@ -18,7 +18,7 @@ import (
 
 // caseFrom wraps a corpus entry into a pipeline case.
 func caseFrom(e *descgen.Entry) *pipeline.Case {
-	return &pipeline.Case{Name: e.Name, File: e.File, Cfg: e.Cfg, Tags: e.Tags, Delivery: descgen.Delivery{Extra: e.ExtraParams}}
+	return &pipeline.Case{Name: e.Name, File: e.File, Cfg: e.Cfg, Tags: e.Tags, Delivery: descgen.Delivery{Extra: e.ExtraParams, RawYAML: e.RawYAML}}
 }
 
 // generate prepares and pushes all cases through both plugins (16 in parallel).
